@@ -264,4 +264,40 @@ def copyRun (dst : Dest) (snaps : List STree) : Dest :=
 def copyRunMissingRootsOnly (dst : Dest) (snaps : List STree) : Dest :=
   copyStep dst (snaps.map STree.id) (STree.flattenL (snaps.filter (fun s => !dst.trees.contains s.id)))
 
+/-! #### copy when writes to the destination fail
+
+`copy.rs copy`: `copy_blobs(data)?` → `copy_blobs(trees)?` → `indexer.finalize()?` → `save_list(snapshots)?`.  `copy_blobs` runs
+`copier.copy(..)` over the blobs (`try_for_each(..)?`) and then `copier.finalize()?`: the packer hands full packs to a writer thread;
+a pack the backend fails to store makes that thread stop, which a LATER `copy()` of the same phase notices (closed channel) — for the
+pack still open when the loop ends (for small copies: the only one) the failure surfaces ONLY as the result of `finalize()`. -/
+
+/-- which writes of one `copy` run the destination backend fails: `data b` / `tree b` — the pack blob `b` was put in is not stored
+(so `b` is not indexed either); `lastData b` / `lastTree b` — that pack is the one flushed by `copier.finalize()`; `index` / `snapshot`
+— the index file / a snapshot file is not stored. -/
+structure CopyFaults where
+  data : Nat → Bool
+  tree : Nat → Bool
+  lastData : Nat → Bool
+  lastTree : Nat → Bool
+  index : Bool
+  snapshot : Bool
+
+/-- one `copy_blobs` phase over the needed blobs: (blobs stored and indexed, the phase returns an error).
+`finalizeChecked = true` is copy.rs as it is (`_ = copier.finalize()?;`); `false` drops that result (seeded change C12-7). -/
+def copyPhase (finalizeChecked : Bool) (fail last : Nat → Bool) (need : List Nat) : List Nat × Bool :=
+  (need.filter (fun b => !fail b), need.any (fun b => fail b && (finalizeChecked || !last b)))
+
+/-- `copy(snapshots)` under write faults: `none` = `copy` returned an error — the `?` after each step: nothing later runs, in
+particular NO snapshot is saved; `some d` = `copy` returned Ok: the snapshots ARE saved, the destination index lists `d`. -/
+def copyRunFaulty (finalizeChecked : Bool) (f : CopyFaults) (dst : Dest) (snaps : List STree) : Option Dest :=
+  let roots := snaps.map STree.id
+  let reach := STree.flattenL snaps
+  let pd := copyPhase finalizeChecked f.data f.lastData ((reach.flatMap (·.data)).filter (fun d => !dst.data.contains d))
+  if pd.2 then none else
+  let pt := copyPhase finalizeChecked f.tree f.lastTree
+    ((roots ++ reach.flatMap (·.kids)).filter (fun t => !dst.trees.contains t))
+  if pt.2 then none else
+  if f.index || f.snapshot then none else
+  some { trees := dst.trees ++ pt.1, data := dst.data ++ pd.1 }
+
 end Rustic.TreeOps
